@@ -91,12 +91,37 @@ func NewCtx(prop, tier string, seed int64, flavour string, shard, nshards int, w
 func (c *Ctx) Quick() bool    { return c.Tier != "thorough" }
 func (c *Ctx) Thorough() bool { return c.Tier == "thorough" }
 
-// Pick returns q in the quick tier and t in the thorough tier.
-func (c *Ctx) Pick(q, t int64) int64 {
-	if c.Thorough() {
-		return t
+// Slow reports whether this worker is an instrumented build that runs 5-15x slower
+// (race detector, ASan): such workers take a reduced share of the randomised workloads.
+func (c *Ctx) Slow() bool {
+	switch c.Flavour {
+	case "race", "asan", "yield", "go126-race", "checkptr":
+		return true
 	}
-	return q
+	return false
+}
+
+// Pick returns q in the quick tier and t in the thorough tier. Case counts (values >= 1000) are
+// reduced for slow instrumented builds; small values (bounds, lengths) are returned unchanged.
+func (c *Ctx) Pick(q, t int64) int64 {
+	v := q
+	if c.Thorough() {
+		v = t
+	}
+	if c.Slow() && v >= 1000 {
+		if c.Thorough() {
+			v = t / 16
+			if v < q/2 {
+				v = q / 2
+			}
+		} else {
+			v = q / 4
+		}
+		if v < 500 {
+			v = 500
+		}
+	}
+	return v
 }
 
 func mix(seed int64, parts ...string) int64 {
